@@ -101,7 +101,9 @@ func propC11(w *World, r *Report) {
 		return -1
 	}
 	hdrF := fieldOfType(func(t types.Type) bool { return typeIs(t, "github.com/TheCacophonyProject/go-cptv", "Header") })
-	camF := fieldOfType(func(t types.Type) bool { return typeIs(t, "github.com/TheCacophonyProject/go-cptv/cptvframe", "CameraSpec") })
+	camF := fieldOfType(func(t types.Type) bool {
+		return typeIs(t, "github.com/TheCacophonyProject/go-cptv/cptvframe", "CameraSpec")
+	})
 	if hdrF < 0 || camF < 0 {
 		r.Unknown("H1", "recorder fields", "-", "header / camera fields not found")
 		return
@@ -261,6 +263,7 @@ func propC11(w *World, r *Report) {
 	checkHeaderInfoGetters(w, r)
 	checkConfigMapping(w, r)
 	checkParserSelection(w, r, ci2)
+	checkSettingsImmutable(w, r, "H3", "ThermalMotion", "RecorderConfig", "ThermalRecorder", "ThermalThrottler", "Windows", "Location", "Config")
 }
 
 // H2
